@@ -359,6 +359,37 @@ def check(case):
                 name, sig_act, k),
                 "both completed; client %r / server %r; case=%r" % (
                     str(vc[k])[:60], str(vs[k])[:60], case), labels=labels)
+    # both completed: then each side's *view of the handshake messages
+    # exchanged* must be the same too - every handshake byte is covered by
+    # the Finished / transcript hash (incl. the first ClientHello of a
+    # HelloRetryRequest flow), so an endpoint that completes on messages
+    # other than those its peer sent holds a different view of the
+    # negotiation even when the derived secrets happen to agree
+    v13 = tuple(p.c.version) == (3, 4)
+
+    def hs_plain(stream):
+        buf = b""
+        for r in records(stream)[0]:
+            if r["type"] == 22:
+                buf += r["body"]
+            elif r["type"] == 20 and v13:
+                continue        # compatibility CCS: ignorable by design
+            else:
+                break
+        return [m for m in tap.split_hs(buf)[0] if m[0] != 0]
+    for src, dst in (("c", "s"), ("s", "c")):
+        sent = hs_plain(p.link.wire(src))
+        recv = hs_plain(p.link.delivered(dst))
+        if sent != recv:
+            k = 0
+            while k < min(len(sent), len(recv)) and sent[k] == recv[k]:
+                k += 1
+            t = (sent[k][0] if k < len(sent) else recv[k][0])
+            return bad("tampered-handshake-bytes-undetected:%s:%s:msg%d" % (
+                name, sig_act, t),
+                "both completed although %s received handshake messages "
+                "other than those %s sent (first difference at message %d, "
+                "type %d); case=%r" % (dst, src, k, t, case), labels=labels)
     got = params(p)
     if got != hkey:
         return bad("tampering-changes-negotiation:%s:%s" % (name, sig_act),
